@@ -163,10 +163,11 @@ pub fn layout(case: &Case) -> Layout {
             for i in 0..n {
                 let t = target_of(&slots[i]).map(|t| addrs[t.min(n - 1)] + mid_delta(case, &slots, i) as u64);
                 match &mut slots[i] {
-                    Slot::Cond { cc, short, .. } if *short || *cc % 17 == 16 => {
-                        if !asm::x86_short_fits(addrs[i], t.unwrap()) {
-                            if *cc % 17 == 16 {
-                                *cc = 4; // loop cannot reach: use je
+                    Slot::Cond { cc, short, .. } if *short || *cc % 19 >= 16 => {
+                        let len = lens[i] as u64;
+                        if !asm::x86_rel8_fits(addrs[i], if *cc % 19 >= 16 { len } else { 2 }, t.unwrap()) {
+                            if *cc % 19 >= 16 {
+                                *cc = 4; // loop / jecxz / jcxz cannot reach: use je
                             }
                             *short = false;
                             changed = true;
@@ -475,6 +476,7 @@ fn initial_state(case: &Case, l: &Layout, seed: u64, extra: &BTreeMap<String, us
         };
         scalars.insert(n.clone(), v);
     }
+    scalars.insert("manual_guard".to_string(), Val::from_u64(rng.below(2), 1));
     let mut mem = ByteModel::new(arch.big_endian());
     let mut data = rng.bytes(512);
     // some stack/data words hold code addresses (return addresses, jump tables)
@@ -815,7 +817,16 @@ pub fn execute(case: &Case) -> Outcome {
     let mut manual: Vec<(usize, usize, bool)> = Vec::new();
     for &(h, t, guarded) in &case.manual_edges {
         let (h, t) = (h.min(n - 1), t.min(n - 1));
-        let head_ok = matches!(l.slots[h], Slot::Term { kind, .. } if !(arch.is_x86() && kind % 3 == 1));
+        // heads: indirect jumps, or a direct unconditional jump when the requested edge runs
+        // parallel to the jump's own successor (same tail): the edge is then redundant for
+        // execution whatever its guard says
+        let head_ok = match &l.slots[h] {
+            Slot::Term { kind, .. } => !(arch.is_x86() && kind % 3 == 1),
+            Slot::Jump { target, .. } => {
+                target.min(&(n - 1)) == &t && mid_delta(case, &l.slots, h) == 0 && !(arch.is_mips() && case.into_delay.contains(&h))
+            }
+            _ => false,
+        };
         if !head_ok || !unit_fully_mapped(&l, l.addrs[h]) || !unit_fully_mapped(&l, l.addrs[t]) {
             continue;
         }
@@ -909,6 +920,9 @@ pub fn execute(case: &Case) -> Outcome {
         Ok(Ok(f)) => f,
     };
     c.inc("result.lift-ok");
+    if std::env::var("SIM_TRACE").is_ok() {
+        eprintln!("--- recovered function:\n{}", function.control_flow_graph());
+    }
     let rfunc = RFunc::from_function(&function);
 
     // ---- structure
@@ -1009,6 +1023,48 @@ pub fn execute(case: &Case) -> Outcome {
                 continue;
             }
         };
+        // where control can go next is known from how the program was assembled: the
+        // unit's successor *addresses* (not their conditions, which are lifter semantics)
+        // must be exactly those
+        if let Some(si) = l.addrs.iter().position(|x| *x == a) {
+            let next = a + l.lens[si] as u64;
+            let tgt = |t: usize| -> u64 {
+                let t = t.min(n - 1);
+                if arch.is_mips() && case.into_delay.contains(&si) && is_branchy(&l.slots[t]) {
+                    l.addrs[t] + 4
+                } else {
+                    l.addrs[t] + mid_delta(case, &l.slots, si) as u64
+                }
+            };
+            let want: Option<BTreeSet<u64>> = match &l.slots[si] {
+                Slot::Cond { target, .. } => Some([next, tgt(*target)].into_iter().collect()),
+                Slot::Jump { target, .. } => Some([tgt(*target)].into_iter().collect()),
+                Slot::Term { .. } => Some(BTreeSet::new()),
+                Slot::Raw(_) => None,
+                _ => Some([next].into_iter().collect()),
+            };
+            let got: BTreeSet<u64> = lift.successors.iter().map(|x| x.0).collect();
+            c.inc("structure.unit-successor-addresses-checked");
+            if let Some(want) = want {
+                if want != got {
+                    return done(
+                        Some(Violation::new(
+                            "successor-missing",
+                            sig(case, ""),
+                            format!(
+                                "instruction at 0x{:x} ({:?}) continues at {:x?} in the machine code, its lifted block names the successors {:x?}",
+                                a, l.slots[si], want, got
+                            ),
+                        )),
+                        c,
+                        states,
+                        log,
+                        1,
+                        true,
+                    );
+                }
+            }
+        }
         let mut expect: BTreeMap<u64, u64> = BTreeMap::new();
         for g in &lift.graphs {
             for instrs in g.blocks.values() {
@@ -1060,7 +1116,7 @@ pub fn execute(case: &Case) -> Outcome {
     for &(h, tl, guarded) in &case_manual {
         let (hs, ts) = (h.min(n - 1), tl.min(n - 1));
         let (ha, ta) = (l.addrs[hs], l.addrs[ts]);
-        if !unit_fully_mapped(&l, ha) || !unit_fully_mapped(&l, ta) || !matches!(l.slots[hs], Slot::Term { .. }) {
+        if !unit_fully_mapped(&l, ha) || !unit_fully_mapped(&l, ta) {
             continue;
         }
         groups.entry((ha, ta)).or_default().push(guarded);
@@ -1075,12 +1131,15 @@ pub fn execute(case: &Case) -> Outcome {
             .and_then(|lift| lift.graphs.first())
             .and_then(|g| g.entry.and_then(|e| g.blocks.get(&e)).and_then(|b| b.first()).and_then(|i| i.address))
             == Some(ta);
-        let tail_has_il = count_by_addr.contains_key(&ta) && tail_entry_carries_address;
+        // heads that lift to no IL (AArch64 direct branches) cannot be located either
+        let head_has_il = count_by_addr.contains_key(&ha) || (arch.is_mips() && count_by_addr.contains_key(&(ha + 1)));
+        let tail_has_il = count_by_addr.contains_key(&ta) && tail_entry_carries_address && head_has_il;
         if !tail_has_il {
             c.inc("structure.manual-edge-unjudged");
             continue;
         }
-        let is_head = |a: Option<u64>| a == Some(ha) || (arch.is_mips() && a == Some(ha + 1));
+        // a MIPS branch unit is [X, X+4 (delay slot), X+1 (the branch's own graph, possibly empty)]
+        let is_head = |a: Option<u64>| a == Some(ha) || (arch.is_mips() && (a == Some(ha + 1) || a == Some(ha + 4)));
         let by_edge = function.edges().iter().any(|e| {
             let head_ok = function
                 .block(e.head())
@@ -1095,6 +1154,21 @@ pub fn execute(case: &Case) -> Outcome {
             && function.blocks().iter().any(|b| {
                 b.instructions().windows(2).any(|w| is_head(w[0].address()) && w[1].address() == Some(ta))
             });
+        // the head instruction's graph may end in an empty block (multi-block delay-slot
+        // instructions, empty branch graphs): an edge from an address-less block into the tail
+        // cannot be attributed to a head, so nothing is concluded from it
+        let from_addressless_block = function.edges().iter().any(|e| {
+            let head_addressless = function
+                .block(e.head())
+                .map(|b| b.instructions().iter().all(|i| i.address().is_none()))
+                .unwrap_or(false);
+            let tail_ok = function.block(e.tail()).ok().and_then(|b| b.instructions().first().and_then(|i| i.address())) == Some(ta);
+            head_addressless && tail_ok && guards.contains(&e.condition().is_some())
+        });
+        if !by_edge && !merged && from_addressless_block {
+            c.inc("structure.manual-edge-unjudged");
+            continue;
+        }
         c.inc("structure.manual-edges-checked");
         if !by_edge && !merged {
             return done(
@@ -1385,6 +1459,20 @@ pub fn generate(run_seed: u64, index: u64) -> Case {
                     if case.manual_edges.iter().all(|e| e.0 != h) {
                         case.manual_edges.push((h, rng.usize_below(n), rng.chance(1, 2)));
                     }
+                }
+            }
+        }
+        if rng.chance(1, 8) {
+            let jumps: Vec<(usize, usize)> = (0..n)
+                .filter_map(|i| match &case.slots[i] {
+                    Slot::Jump { target, .. } => Some((i, (*target).min(n - 1))),
+                    _ => None,
+                })
+                .collect();
+            if !jumps.is_empty() {
+                let (h, t) = *rng.pick(&jumps);
+                if case.manual_edges.iter().all(|e| e.0 != h) {
+                    case.manual_edges.push((h, t, rng.chance(2, 3)));
                 }
             }
         }
